@@ -369,6 +369,16 @@ def r16_4(ctx, f, rec, n, extras, schema, key_colon):
             continue
         r = reps[0]
         loop = r[2]
+        if loop is None and len(r[1]) == 2 and r[1][1][0] == "hole" and isinstance(r[1][1][1], ast.Name):
+            # a local list spliced into the joined columns: `opt = [f(k) for k in tags]; "\t".join([cols] + opt)`
+            nm = r[1][1][1].id
+            defs = [s_.value for s_ in walk_stmts(f.node.body) if isinstance(s_, ast.Assign) and len(s_.targets) == 1 and norm(s_.targets[0]) == nm]
+            muts = [c for c in walk_own(f.node) if isinstance(c, ast.Call) and isinstance(c.func, ast.Attribute) and norm(c.func.value) == nm]
+            if len(defs) == 1 and isinstance(defs[0], (ast.ListComp, ast.GeneratorExp)) and not muts:
+                ent = tmpl.comp_entry(defs[0])
+                r = ("rep", tmpl._merge([r[1][0]] + ent[1]), ent[2])
+                parts = [r if x is reps[0] else x for x in parts]
+                loop = r[2]
         if loop is None:
             raise AnalysisError("R16.4", where, f"the repetition over the tags is not a loop or comprehension this rule can read ({tmpl.show(r[1])[:60]})")
         it = norm(loop.iter)
